@@ -29,8 +29,13 @@ class C10(Prop):
                   'C10_fragments_come_from_their_group (provenance through the whole recognition pipeline), C10_a_part_is_the_restriction_of_the_whole (for every separated drawing the accepted fragments and contact groups of a part are those of the whole coming from its cells, in the same order), C10_parts_succeed_together, '
                   'C10_stacked_drawings / C10_stacked_document / C10_stacked_canvas (from the text: a drawing stacked on another, g blank lines apart, is recognised as the two drawings, with order; for g >= 2 its drawing nodes are those of the upper drawing and those of the lower one moved, on a canvas covering both), C10_side_by_side (from the cell map: two parts with two blank columns between them are drawn as the two parts, the right one moved; generic form parts_drawing), C10_a_part_renders_the_same_anywhere (C06), C10_enclosure_stays_inside_a_part / C10_nodes_of_the_parts (the enclosure pass, given that no fragment of one part fits in the bounds of a fragment of the other). For all drawings.')
     level_note = 'the text stage of side-by-side placement and gaps of one line or one column are covered by correspondence plus oracle'
-    def make(self, gen, A, B, gap, how, C=None):
+    def make(self, gen, A, B, gap, how, C=None, indent=0):
         A = A or ['']; B = B or ['']
+        if how == 'stack' and indent:
+            # the lower part moved to the right: its first cell may sit one column right of the upper part's last cell
+            rows = list(A) + [''] * gap + [' ' * indent + r for r in B]; off = (indent, len(A) + gap)
+            runs = {'A': Run('\n'.join(A), '', 'settings'), 'B': Run('\n'.join(B), '', 'settings'), 'AB': Run('\n'.join(rows), '', 'settings')}
+            return Item(gen, runs, {'text': '\n'.join(rows), 'offset': list(off), 'how': how, 'gap': gap})
         if how == 'side':
             wa = width(A); h = max(len(A), len(B))
             rows = [pad(A[i] if i < len(A) else '', wa + gap) + (B[i] if i < len(B) else '') for i in range(h)]
@@ -48,6 +53,19 @@ class C10(Prop):
         for _ in range(n):
             A = rng.choice(pool); B = rng.choice(pool)
             out.append(self.make('pair', A, B, rng.randint(1, 3), rng.choice(['side', 'stack'])))
+        # the same drawing twice (whatever is remembered about the first must not leak into the second), shapes with something inside them
+        inner = [[' ,-.', '( a )', " `-'"], ['  _', ' (b)'], ['+----+', '| ab |', '+----+'], ['  .--.', ' ( xy )', "  `--'"], [' ,-.', '(   )-- c', " `-'"]]
+        for P in inner + [rng.choice(pool) for _ in range(20 if tier == 'quick' else 300)]:
+            out.append(self.make('twice', P, P, rng.randint(1, 3), rng.choice(['side', 'stack'])))
+        # stacked with the lower part moved right by every small amount around the width of the upper part's last row
+        arcs = [['  ,--.', ' (    )'], [' ,-.', '(   )', " `-'"], ['   __', ' ,\'  `.', '(      )'], ['.--', '|']]
+        for _ in range(40 if tier == 'quick' else 600):
+            A = rng.choice(pool); B = rng.choice(arcs if rng.random() < 0.6 else pool)
+            last = row_cols((A[-1] if A else '').rstrip())
+            first_blank = len(B[0]) - len(B[0].lstrip(' ')) if B and B[0].strip() else 0
+            for d in (-1, 0, 1):
+                ind = last + d - first_blank
+                if ind >= 0: out.append(self.make('stack-indent', A, B, rng.randint(1, 3), 'stack', indent=ind))
         for _ in range(40 if tier == 'quick' else 600):
             body = ''.join(rng.choice(gens.LABELS + gens.LATIN2 + gens.CJK + gens.COMBINING + ['\t', ' ']) for _ in range(rng.randint(1, 6)))
             A = [rng.choice(['', ' ', 'ab ']) + '"' + body + '"' for _ in range(rng.randint(1, 3))]
